@@ -138,6 +138,8 @@ fn c12_batch(seed: u64, index: u64, per_batch: u64) -> HistoryReport {
             out.violation("C12", clause, format!("{} :: case {} of batch {}: delegations {:?}", msg, case, index, ds));
         };
         match res {
+            // an abort is a failure: where failing is permitted (empty list) it is not judged
+            Err(_) if ds.is_empty() => out.count("c12.delegation_empty_list_rejected"),
             Err(_) => fail(&mut out, "delegation_no_panic", format!("calculate_delegations({}) panicked", amount)),
             Ok(Err(e)) => {
                 if !ds.is_empty() {
@@ -155,6 +157,11 @@ fn c12_batch(seed: u64, index: u64, per_batch: u64) -> HistoryReport {
                     }
                     out.count("c12.delegation_empty_list_accepted_for_nothing");
                 } else {
+                    // a plan may leave trailing validators out (they get nothing); it may not name more than there are
+                    let mut plan = plan;
+                    while plan.len() < ds.len() {
+                        plan.push(cosmwasm_std::Uint128::zero());
+                    }
                     let sum: u128 = plan.iter().map(|x| x.u128()).sum();
                     if !rem.is_zero() || sum != amount || plan.len() != ds.len() {
                         fail(&mut out, "delegation_distributes_everything", format!("amount {} -> plan sums to {}, remainder {}", amount, sum, rem));
@@ -203,6 +210,8 @@ fn c12_batch(seed: u64, index: u64, per_batch: u64) -> HistoryReport {
             log.push(json!({"fn": "calculate_undelegations", "delegations": ds.iter().take(8).map(|x| x.to_string()).collect::<Vec<_>>(), "n": ds.len(), "amount": amount.to_string(), "pattern": pat}));
         }
         match res {
+            Err(_) if ds.is_empty() => out.count("c12.undelegation_empty_list_rejected"),
+            Err(_) if amount > t => out.count("c12.undelegation_above_total_rejected"),
             Err(_) => fail(&mut out, "undelegation_no_panic", format!("calculate_undelegations({}) panicked", amount)),
             Ok((Err(e), _)) => {
                 let e = e.to_string();
@@ -225,6 +234,10 @@ fn c12_batch(seed: u64, index: u64, per_batch: u64) -> HistoryReport {
                         fail(&mut out, "undelegation_removes_exactly", format!("calculate_undelegations({}) of total {} was accepted with a plan summing to {}", amount, t, sum));
                     }
                 } else {
+                    let mut plan = plan;
+                    while plan.len() < ds.len() {
+                        plan.push(cosmwasm_std::Uint128::zero());
+                    }
                     let sum: u128 = plan.iter().map(|x| x.u128()).sum();
                     if sum != amount || plan.len() != ds.len() {
                         fail(&mut out, "undelegation_removes_exactly", format!("amount {} -> plan sums to {}", amount, sum));
